@@ -41,7 +41,7 @@ ID = "C07"
 LEVEL = "fault_enumeration"
 ENGINE = "seq+threads"
 THREADS_EVERY = 5      # beyond the table every 5th run index is a threads plan
-RUNS = {"quick": 40_000, "thorough": 1_500_000}
+RUNS = {"quick": 35_000, "thorough": 1_500_000}
 LOGICS = ["AND", "OR", "MAJORITY", "UNANIMOUS", "EXECUTOR_PRIORITY", "ASSESSOR_PRIORITY"]
 BEHAVIOURS = ["EXECUTE", "PERMIT", "BLOCK", "FAILURE", "DEFER", "UNKNOWN", "raise:RuntimeError"]
 TABLE = len(LOGICS) * len(BEHAVIOURS) * len(BEHAVIOURS) * 2          # 588 = 294 cells x cache on/off
